@@ -5,7 +5,7 @@ cd /verif
 for d in seeded/*/; do
   id=$(basename $d); prop=${id%%-*}
   extra=""
-  case $id in C20-r5) extra="C14 C16";; esac
+  case $id in C20-r5) extra="C14 C16";; C16-r6) extra="C12";; esac
   out=$(tools/mutant_run.sh /verif/$d/patch.diff $prop $extra 2>&1)
   echo "$id: $(echo "$out" | grep -E '^== ' | tr '\n' ' ') $(echo "$out" | grep -E ' at step ' | head -1 | cut -c1-140)"
 done
